@@ -43,7 +43,9 @@ impl E57Writer {
             // empty device required; the file starts with the placeholder header (lengths and offsets zero)
             Ok(w) => w.writer.wf() && writer.data@.len() == 0 && w.writer.cursor() == 48
                 && w.writer.stream().len() >= 48 && w.writer.stream().subrange(0, 48) =~= spec_placeholder_header()
-                && w.writer.writer.failed@ == writer.failed@,
+                && w.writer.writer.failed@ == writer.failed@
+                // C15: the placeholder carries nothing for the XML-length field
+                /*[C15]*/ && (writer.dirty@ == 0 ==> w.writer.quiet()),
             Err(_) => true },
 //@call write 0 before
         let ghost w0 = writer;
@@ -51,7 +53,7 @@ impl E57Writer {
         proof {
             lemma_appended_content(w0, writer, header.bytes());
             assert(header.bytes() =~= spec_placeholder_header());
-            reveal(PagedWriter::stream);
+            reveal(stream_of);
         }
 //@endfn
 
@@ -72,16 +74,35 @@ impl E57Writer {
                 &&& w.no_new_fault(&w0)
             }),
             Err(_) => true },
+            // C15 ordering: whatever the outcome, at most ONE device write of finalize carries a non-zero XML length, and at the moment
+            // that write is issued the device already holds every page of the finished file (all sections and the complete XML, every
+            // page sealed) with the placeholder header still in place
+            /*[C15]*/ old(self).writer.quiet() ==> final(self).writer.writer.dirty@ <= 1,
+            /*[C15]*/ (old(self).writer.quiet() && final(self).writer.writer.dirty@ == 1) ==>
+                exists|xml: Seq<u8>| #[trigger] complete_but_header(final(self).writer.writer.snap@, old(self).writer.stream(), old(self).writer.cursor(), xml),
+            // ... and that write only replaces page 0
+            /*[C15]*/ (r is Ok && old(self).writer.quiet() && final(self).writer.writer.dirty@ == 1) ==>
+                final(self).writer.writer.data@.len() == final(self).writer.writer.snap@.len()
+                && (forall|i: int| 1024 <= i < final(self).writer.writer.data@.len() ==> final(self).writer.writer.data@[i] == final(self).writer.writer.snap@[i]),
 //@body_start
         let ghost w0 = self.writer;
+        proof { lemma_cursor_bound(w0); if w0.quiet() { lemma_quiet_clean(w0); } }
 //@call write_all 0 after
         let ghost w1 = self.writer;
+        proof { if w1.quiet() { lemma_quiet_clean(w1); } }
 //@call physical_size 0 after
         let ghost w2 = self.writer;
+        proof { if w2.quiet() { lemma_quiet_clean(w2); } }
 //@call physical_seek 0 after
         let ghost w3 = self.writer;
+        proof {
+            lemma_unphys0();
+            if w3.quiet() { lemma_quiet_clean(w3); }
+            if w0.quiet() { lemma_complete(w0, w1, w2, w3, xml_bytes@); }
+        }
 //@call write 0 after
         let ghost w4 = self.writer;
+        proof { assert(w4.writer == w3.writer); }
 //@tail
         proof {
             signature_is_astm_e57();
@@ -97,6 +118,34 @@ impl E57Writer {
 //@endfn
 }
 proof fn lemma_unphys0() ensures unphys(0) == 0 { reveal(unphys); }
+/// C15: device image that holds the complete file except for the real header: every logical byte from 48 up to the end of the
+/// XML is in place, every page is sealed, and the XML-length field still is the placeholder's zero
+spec fn complete_but_header(snap: Seq<u8>, s0: Seq<u8>, c0: int, xml: Seq<u8>) -> bool {
+    &&& snap.len() % 1024 == 0 && 1020 * (snap.len() as int / 1024) >= c0 + xml.len() && snap.len() >= 1024
+    &&& (forall|i: int| 48 <= i < c0 + xml.len() ==> snap[phys(i)] == #[trigger] want_byte(s0, c0, xml, i))
+    &&& all_sealed(snap)
+    &&& (forall|i: int| 32 <= i < 40 ==> snap[i] == 0u8)
+}
+/// logical byte i of "stream s0 with xml appended at c0"
+spec fn want_byte(s0: Seq<u8>, c0: int, xml: Seq<u8>, i: int) -> u8 { if i < c0 { s0[i] } else { xml[i - c0] } }
+proof fn lemma_complete(w0: PagedWriter, w1: PagedWriter, w2: PagedWriter, w3: PagedWriter, xml: Seq<u8>)
+    requires w0.wf(), w1.wf(), w2.wf(), w3.wf(), w3.quiet(), w0.cursor() >= 48, w0.stream().len() >= 48,
+        appended(w0, w1, xml), w2.stream() =~= w1.stream(), w2.cursor() == w1.cursor(),
+        w3.dl() == 1024 * w2.npages(),
+        forall|i: int| 0 <= i < 1020 * w2.npages() ==> w3.writer.data@[phys(i)] == #[trigger] w2.stream()[i],
+    ensures complete_but_header(w3.writer.data@, w0.stream(), w0.cursor(), xml)
+{
+    lemma_appended_content(w0, w1, xml);
+    lemma_stream_len(w0); lemma_stream_len(w1); lemma_stream_len(w2);
+    reveal(quiet_of);
+    assert(w0.cursor() <= w0.stream().len());
+    let snap = w3.writer.data@;
+    assert(snap.len() as int / 1024 == w2.npages());
+    assert forall|i: int| 48 <= i < w0.cursor() + xml.len() implies snap[phys(i)] == #[trigger] want_byte(w0.stream(), w0.cursor(), xml, i) by {
+        assert(snap[phys(i)] == w2.stream()[i]);
+        assert(w1.stream()[i] == want_byte(w0.stream(), w0.cursor(), xml, i));
+    }
+}
 /// logical stream (s, device length dl) of a finalized file relative to the stream (s0, cursor c0) before finalize
 spec fn finalized_stream(s0: Seq<u8>, c0: int, s: Seq<u8>, dl: int, xml: Seq<u8>) -> bool {
     // the XML bytes are appended at the old cursor; then ONLY the first 48 logical bytes are replaced by the header
@@ -110,5 +159,5 @@ spec fn finalized_stream(s0: Seq<u8>, c0: int, s: Seq<u8>, dl: int, xml: Seq<u8>
 proof fn lemma_stream_len(w: PagedWriter)
     requires w.wf()
     ensures w.stream().len() == 1020 * w.npages(), w.npages() >= 0, w.stream().len() as int / 1020 == w.npages()
-{ reveal(PagedWriter::stream); }
+{ reveal(stream_of); }
 spec fn spec_placeholder_header() -> Seq<u8> { spec_file_header(spec_signature(), 1, 0, 0, 0, 0, 1024) }
